@@ -1,3 +1,4 @@
 import Driver.Gae
 import Driver.Tabular
 import Driver.Wrappers
+import Driver.Replay
